@@ -156,7 +156,9 @@ def correspondence(row):
                 if want != model:
                     out.append(f"{m}: conflict report differs: real {want} model {model}")
         elif rc == "E:ImportTypeMergeConflict":
-            if mc not in ("ok", "E:ImportTypeMergeConflict"):
+            # PANIC(BadNode) is the model's rendering of the `.unwrap()` on an explicit import's failed merge (current code);
+            # a repaired implementation reports ImportTypeMergeConflict there
+            if mc not in ("ok", "E:ImportTypeMergeConflict", "PANIC"):
                 out.append(f"{m}: real merge conflict, model says {model}")
         elif rc == "PANIC" and "unwrap()" in real and ("cannot be merged" in real or "mismatched" in real or "merge" in real):
             # resolve_imports `.unwrap()`: the model predicts it for kinds of different classes (PANIC(BadNode)); a type-level
